@@ -184,6 +184,8 @@ type FnCtx struct {
 	entryMeasure []string
 	regexUsed  map[string]bool
 	declSet    map[string]bool
+	useCallee  string
+	inlineDepth int
 	declSetN   int
 }
 
